@@ -79,8 +79,16 @@ func configuredEpisode() {
 		quiet(func() { _ = z.PrettyHTML() })
 		quiet(func() { _, _ = z.MarshalText(); _, _ = z.MarshalJSON() })
 		quiet(func() { _ = id.String(); _ = id.URN(); _, _ = id.MarshalText(); _ = fmt.Sprintf("%u", id) })
-		quiet(func() { _ = d.UnmarshalText([]byte("2021-01-01")); _ = n.UnmarshalText([]byte("XIV")); _ = v.UnmarshalText([]byte("1.0.0")) })
-		quiet(func() { _ = z.UnmarshalText([]byte("1kB")); _ = z.UnmarshalJSON([]byte("1")); _ = id.UnmarshalText([]byte("x")) })
+		quiet(func() {
+			_ = d.UnmarshalText([]byte("2021-01-01"))
+			_ = n.UnmarshalText([]byte("XIV"))
+			_ = v.UnmarshalText([]byte("1.0.0"))
+		})
+		quiet(func() {
+			_ = z.UnmarshalText([]byte("1kB"))
+			_ = z.UnmarshalJSON([]byte("1"))
+			_ = id.UnmarshalText([]byte("x"))
+		})
 	}
 	date.Formatter, roman.Formatter, sem.Formatter, size.Formatter, uu.Formatter = oDF, oRF, oSF, oZF, oUF
 	date.Parser, roman.Parser, sem.Parser, size.Parser, uu.Parser = oDP, oRP, oSP, oZP, oUP
